@@ -321,6 +321,9 @@ impl FileStateMachine {
         // Load key-value data from data file
         self.load_data().await?;
 
+        // Load the metadata of the last snapshot this node generated or installed
+        self.load_snapshot_metadata().await?;
+
         // Load TTL data from disk
         self.load_ttl_data().await?;
 
@@ -358,6 +361,20 @@ impl FileStateMachine {
         lease.reload(&ttl_data)?;
 
         info!("Loaded TTL state from disk: {} active TTLs", lease.len());
+        Ok(())
+    }
+
+    /// Loads the persisted snapshot metadata, if any (see `persist_last_snapshot_metadata`)
+    async fn load_snapshot_metadata(&self) -> Result<(), Error> {
+        let path = self.data_dir.join("snapshot_metadata.bin");
+        if !path.exists() {
+            return Ok(());
+        }
+        let bytes = tokio::fs::read(&path).await?;
+        match bincode::deserialize::<SnapshotMetadata>(&bytes) {
+            Ok(m) => *self.last_snapshot_metadata.write() = Some(m),
+            Err(e) => warn!("Ignoring undecodable snapshot metadata file: {e}"),
+        }
         Ok(())
     }
 
@@ -923,6 +940,10 @@ impl FileStateMachine {
         self.clear_data_file().await?;
         self.clear_metadata_file().await?;
         self.clear_wal_async().await?;
+        let snapshot_metadata_path = self.data_dir.join("snapshot_metadata.bin");
+        if snapshot_metadata_path.exists() {
+            tokio::fs::remove_file(&snapshot_metadata_path).await?;
+        }
 
         info!("State machine reset completed");
         Ok(())
@@ -1325,7 +1346,17 @@ impl StateMachine for FileStateMachine {
         &self,
         snapshot_metadata: &SnapshotMetadata,
     ) -> Result<(), Error> {
-        self.update_last_snapshot_metadata(snapshot_metadata)
+        self.update_last_snapshot_metadata(snapshot_metadata)?;
+        // The metadata of the snapshot this node holds must survive a restart: the raft log is
+        // purged up to that snapshot, and a restarted leader needs it to push the snapshot to a
+        // peer that is behind the purge boundary. Written to a temp file and renamed.
+        let bytes = bincode::serialize(snapshot_metadata)
+            .map_err(d_engine_core::StorageError::BincodeError)?;
+        let path = self.data_dir.join("snapshot_metadata.bin");
+        let tmp = self.data_dir.join("snapshot_metadata.bin.tmp");
+        std::fs::write(&tmp, bytes).map_err(d_engine_core::StorageError::IoError)?;
+        std::fs::rename(&tmp, &path).map_err(d_engine_core::StorageError::IoError)?;
+        Ok(())
     }
 
     async fn apply_snapshot_from_file(
@@ -1453,7 +1484,7 @@ impl StateMachine for FileStateMachine {
         }
 
         // Update metadata
-        *self.last_snapshot_metadata.write() = Some(metadata.clone());
+        self.persist_last_snapshot_metadata(metadata)?;
 
         if let Some(last_included) = &metadata.last_included {
             self.update_last_applied(*last_included);
@@ -1520,7 +1551,7 @@ impl StateMachine for FileStateMachine {
             checksum: Bytes::from(vec![0; 32]), // Simple checksum for demo
         };
 
-        self.update_last_snapshot_metadata(&metadata)?;
+        self.persist_last_snapshot_metadata(&metadata)?;
 
         info!("Snapshot generated at {:?}", snapshot_path);
 
